@@ -55,6 +55,7 @@ void harness(void) {
 void harness(void) {
 	const unsigned char *buf = nondet_ptr(); size_t buf_len = nondet_size(); KSI_FTLV *arr = nondet_ptr(); size_t arr_len = nondet_size();
 	size_t *rd = nondet_ptr(); int res;
+	g_ftlv_k = nondet_size();   /* witness index: arbitrary */
 #ifdef FTLV_COUNT_MODE
 	arr = NULL;    /* count mode (arr_len != 0 is then an argument error); array mode is job C09.memReadN_tiling */
 #endif
